@@ -31,3 +31,175 @@ def wiring(rep):
     lines.append("required: _expected == Manager._expected_subprotocols, and the OPEN refused by CLOSE(5)")
     bad = (not wired) or held or closes != [5]
     return bad, "\n".join(lines)
+
+
+# ------------------------------------------------------------------ endpoints (connect / listen): canonical scenarios
+def _endpoint_world():
+    """a recording IDilationManager around the REAL Inbound / SubchannelDemultiplex / Manager.allocate_subchannel_id"""
+    from zope.interface import implementer
+    from twisted.internet.defer import Deferred
+    from wormhole._interfaces import IDilationManager
+    from wormhole._dilation.subchannel import SubchannelDemultiplex, _WormholeAddress
+    from wormhole._dilation.inbound import Inbound
+    from wormhole._dilation.manager import Manager
+
+    events = []
+
+    class Chan:
+        def __init__(self):
+            self.d = Deferred()
+
+        def when_fired(self):
+            events.append(("when_fired",))
+            return self.d
+
+    @implementer(IDilationManager)
+    class M:
+        def __init__(self):
+            self._next_subchannel_id = 7
+            self._main_channel = Chan()
+            self._host_addr = _WormholeAddress()
+            self._subprotocol_factories = SubchannelDemultiplex()
+            self._inbound = Inbound(self, self._host_addr)
+
+        def allocate_subchannel_id(self):
+            r = Manager.allocate_subchannel_id(self)
+            events.append(("allocate", r))
+            return r
+
+        def send_open(self, scid, name):
+            events.append(("send_open", scid, name))
+
+        def send_close(self, scid):
+            events.append(("send_close", scid))
+
+        def subchannel_local_open(self, scid, sc):
+            events.append(("local_open", scid, sc))
+            self._inbound.subchannel_local_open(scid, sc)
+
+        def _register_subprotocol_factory(self, name, factory):
+            events.append(("register", name, factory))
+            Manager._register_subprotocol_factory(self, name, factory)
+
+    return M(), events
+
+
+def _endpoint_connect(rep):
+    """SubchannelConnectorEndpoint.connect on the real classes: (1) nothing happens before the main channel fires, (2) after it
+    fired: one id (the manager's next), one OPEN(id, name), one SubChannel(id) registered BEFORE buildProtocol, attached, then
+    makeConnection, result is that protocol, (3) main channel failed: nothing at all, the failure is passed on"""
+    from twisted.python.failure import Failure
+    from wormhole._dilation.subchannel import SubchannelConnectorEndpoint
+    from wormhole._dilation.manager import OldPeerCannotDilateError
+    lines, bad = [], False
+    m, ev = _endpoint_world()
+
+    class Proto:
+        def makeConnection(self, t):
+            ev.append(("makeConnection", self, t, t._protocol is self))
+
+    class Factory:
+        def buildProtocol(self, addr):
+            p = Proto()
+            ev.append(("buildProtocol", addr.subprotocol, p, dict(m._inbound._open_subchannels)))
+            return p
+
+    ep = SubchannelConnectorEndpoint("Proto/1", m, m._host_addr, None)
+    res = []
+    ep.connect(Factory()).addBoth(res.append)
+    lines.append(f"connect() before the main channel fired: events {[e[0] for e in ev]}")
+    bad |= [e[0] for e in ev] != ["when_fired"] or bool(res)
+    m._main_channel.d.callback(None)
+    names = [e[0] for e in ev]
+    lines.append(f"after it fired: events {names}, result {res!r}, next id {m._next_subchannel_id}")
+    want = ["when_fired", "allocate", "send_open", "local_open", "buildProtocol", "makeConnection"]
+    ok = names == want
+    if ok:
+        scid = ev[1][1]
+        sc = ev[3][2]
+        p = ev[4][2]
+        ok = (scid == 7 and m._next_subchannel_id == 9 and ev[2] == ("send_open", 7, "Proto/1") and ev[3][1] == 7 and
+              sc._scid == 7 and sc._manager is m and sc._peer_addr.subprotocol == "Proto/1" and
+              ev[4][1] == "Proto/1" and ev[4][3].get(7) is sc and ev[5][1] is p and ev[5][2] is sc and ev[5][3] and
+              res == [p] and sc._protocol is p and sc._pending_remote_data == [] and not sc._pending_remote_close and
+              m._inbound._open_subchannels.get(7) is sc)
+    bad |= not ok
+    lines.append("required: when_fired, allocate(7), send_open(7,'Proto/1'), SubChannel(7) registered, buildProtocol, _set_protocol, "
+                 "makeConnection, result is the protocol -> " + ("ok" if ok else "VIOLATED"))
+    m2, ev2 = _endpoint_world()
+    ep2 = SubchannelConnectorEndpoint("Proto/1", m2, m2._host_addr, None)
+    res2 = []
+    ep2.connect(Factory()).addBoth(res2.append)
+    m2._main_channel.d.errback(Failure(OldPeerCannotDilateError()))
+    ok2 = [e[0] for e in ev2] == ["when_fired"] and len(res2) == 1 and isinstance(res2[0], Failure) and \
+        res2[0].check(OldPeerCannotDilateError) is not None and m2._next_subchannel_id == 7 and not m2._inbound._open_subchannels
+    lines.append(f"main channel failed: events {[e[0] for e in ev2]}, result {res2!r} -> " + ("ok" if ok2 else "VIOLATED"))
+    bad |= not ok2
+    return bad, "\n".join(lines)
+
+
+def _endpoint_listen(rep):
+    """SubchannelListenerEndpoint.listen on the real classes: OPENs held before are connected once each in arrival order at
+    registration (and only after the main channel fired), a later OPEN goes straight to the factory, other names stay held"""
+    from unittest import mock as _mock
+    from twisted.python.failure import Failure
+    from wormhole._dilation.subchannel import SubchannelListenerEndpoint
+    from wormhole._dilation.manager import OldPeerCannotDilateError
+    lines, bad = [], False
+    m, ev = _endpoint_world()
+    built = []
+
+    class Factory:
+        def buildProtocol(self, addr):
+            p = _mock.Mock()
+            built.append((addr.subprotocol, p))
+            return p
+
+    m._inbound.handle_open(2, "Proto/1")
+    m._inbound.handle_open(4, "other")
+    m._inbound.handle_open(6, "Proto/1")
+    held = [m._inbound._open_subchannels[k] for k in (2, 6)]
+    f = Factory()
+    res = []
+    SubchannelListenerEndpoint("Proto/1", m).listen(f).addBoth(res.append)
+    lines.append(f"listen() before the main channel fired: events {[e[0] for e in ev]}, protocols built {len(built)}")
+    bad |= [e[0] for e in ev] != ["when_fired"] or bool(built) or bool(res)
+    m._main_channel.d.callback(None)
+    order = [p.makeConnection.call_args[0][0] for _, p in built]
+    ok = [e[0] for e in ev] == ["when_fired", "register"] and ev[1][1:] == ("Proto/1", f) and \
+        [n for n, _ in built] == ["Proto/1", "Proto/1"] and order == held and \
+        all(sc._protocol is p for sc, (_, p) in zip(held, built)) and \
+        len(m._subprotocol_factories._pending_opens.get("Proto/1", ())) == 0 and \
+        len(m._subprotocol_factories._pending_opens["other"]) == 1 and len(res) == 1 and \
+        not isinstance(res[0], Failure) and res[0].getHost() is m._host_addr
+    lines.append(f"after it fired: events {[e[0] for e in ev]}, built {[n for n, _ in built]}, in arrival order {order == held}, "
+                 f"result {res!r} -> " + ("ok" if ok else "VIOLATED"))
+    bad |= not ok
+    m._inbound.handle_open(8, "Proto/1")
+    ok3 = len(built) == 3 and built[2][1].makeConnection.call_args[0][0] is m._inbound._open_subchannels[8]
+    lines.append("a later OPEN for the name goes straight to the factory -> " + ("ok" if ok3 else "VIOLATED"))
+    bad |= not ok3
+    m2, ev2 = _endpoint_world()
+    res2 = []
+    SubchannelListenerEndpoint("Proto/1", m2).listen(f).addBoth(res2.append)
+    m2._main_channel.d.errback(Failure(OldPeerCannotDilateError()))
+    ok2 = [e[0] for e in ev2] == ["when_fired"] and len(res2) == 1 and isinstance(res2[0], Failure) and \
+        "Proto/1" not in m2._subprotocol_factories._factories
+    lines.append(f"main channel failed: events {[e[0] for e in ev2]}, result {res2!r} -> " + ("ok" if ok2 else "VIOLATED"))
+    bad |= not ok2
+    return bad, "\n".join(lines)
+
+
+def _guarded(fn):
+    def run(rep):
+        import traceback
+        try:
+            return fn(rep)
+        except Exception:       # noqa: the canonical scenario itself blew up inside the real code
+            return True, "the canonical scenario raised inside the real code:\n" + traceback.format_exc(limit=6)
+    run.__doc__ = fn.__doc__
+    return run
+
+
+endpoint_connect = _guarded(_endpoint_connect)
+endpoint_listen = _guarded(_endpoint_listen)
